@@ -59,7 +59,7 @@ SEQ = {
     "C15": dict(families=["diverge"], needs=["panic:iterlimit", "op:set"], scale=0.4,
                 rule="diverge family: f = NOT f under an input switch, plus a convergent cycle and unrelated functions; "
                      "non-trivial = the iteration limit was hit and an input written"),
-    "C26": dict(families=["persist"], variant="persist", mode="persist", needs=["restored", "op:set", "dv"],
+    "C26": dict(families=["persist"], scale=6, variant="persist", mode="persist", needs=["restored", "op:set", "dv"],
                 rule="persist family (persistence build): persisted and non-persisted functions, histories with serialize -> drop -> "
                      "deserialize into a fresh database between writes; non-trivial = a restore, a write and a validated reuse"),
     "C23": dict(families=["core", "lru", "struct", "intern", "mixed"], needs=["drop", "retained"],
@@ -104,9 +104,9 @@ ASSUME_SEQ = [
 ]
 
 
-def known_match(known, pid, job, job_trace):
+def known_match(known, pid, job, job_trace, detail=""):
     """A violation is a *known finding* only if the failing history matches a listed signature."""
-    sig = findings.classify(pid, job, job_trace)
+    sig = findings.classify(pid, job, job_trace, detail)
     if sig is None:
         return None
     for f in known.get("findings", []):
@@ -191,7 +191,7 @@ def finish(pid, tier, seed, results, cfg, known, wd, t0, mc):
             if vid != pid:
                 others.setdefault(vid, []).append((r["family"], jid))
                 continue
-            kf = known_match(known, pid, job, seqcheck.trace_excerpt(r["trace"], r["starts"], jid, maxlines=100000)) if job else None
+            kf = known_match(known, pid, job, seqcheck.trace_excerpt(r["trace"], r["starts"], jid, maxlines=100000), detail) if job else None
             if kf:
                 known_hits.append(kf)
             else:
